@@ -139,7 +139,9 @@ func createProcess(p *Process, isMethod bool) {
 	case "err":
 		//p.Stderr.Writeln([]byte("Invalid usage of named pipes: stderr defaults to <err>."))
 	case "out":
-		p.Stderr = p.Next.Stdin
+		// stdout is already wired to the next process's stdin when this process is
+		// piped, and to the block's stdout when it isn't
+		p.Stderr = p.Stdout
 	default:
 		pipe, err := GlobalPipes.Get(p.NamedPipeErr)
 		if err == nil {
